@@ -229,7 +229,7 @@ def decodeItem (cap : Nat) (d : Dec) : Bytes → ItemRes
             else if rest1 = [] then .err .badData d
             else
               match decStr cap rest1 with
-              | .error e => .err e d
+              | .error e => .err (if e = .moreBuf then .moreBufName else e) d
               | .ok (raw, rest2) =>
                 if raw = [] then .err .badData d
                 else decodeValue cap d kind raw 0 rest2
@@ -237,7 +237,7 @@ def decodeItem (cap : Nat) (d : Dec) : Bytes → ItemRes
             match d.lookup idx with
             | none => .err .badData d
             | some ((n, v), hint) =>
-              if cap < n.length then .err .moreBuf d
+              if cap < n.length then .err .moreBufName d
               else if kind = .indexed then
                 if cap - n.length < v.length then .err .moreBuf d
                 else .fld ⟨n, v, hint, false⟩ rest1 d
@@ -265,9 +265,12 @@ def decodeBlockAux (cap : Nat) : Nat → Dec → Bytes → List Field → BlockR
 def decodeBlock (cap : Nat) (d : Dec) (bs : Bytes) : BlockRes :=
   decodeBlockAux cap (bs.length + 1) d bs []
 
-/-- h2_discard_headers_frame(): decode and throw away, stop silently at the
-    first error; only the decoder state survives -/
-def discardBlock (cap : Nat) (d : Dec) (bs : Bytes) : Dec := (decodeBlock cap d bs).dec
+/-- h2_discard_headers_frame() runs the same loop and throws the fields away:
+    `(decodeBlock cap d bs).dec` survives, `(decodeBlock cap d bs).err` is a
+    connection error exactly as for a served block. -/
+def discardBlock (cap : Nat) (d : Dec) (bs : Bytes) : Dec × Option Err :=
+  let r := decodeBlock cap d bs
+  (r.dec, r.err)
 
 /-! ### reference encoder (any conformant peer) -/
 
@@ -329,46 +332,43 @@ inductive Disp where
   | serve | discard
 deriving DecidableEq, Repr
 
-/-- what the encoding peer does, in order -/
-inductive ConnItem where
-  | block (cs : List Choice) (hs : List Header) (disp : Disp)
-  | settings (n : Nat)      -- SETTINGS_HEADER_TABLE_SIZE renegotiated to n (applied at both ends)
+/-- what the encoding peer sends, in order (lighttpd never changes its own
+    SETTINGS_HEADER_TABLE_SIZE: the request-direction limit stays 4096) -/
+structure ConnItem where
+  cs : List Choice
+  hs : List Header
+  disp : Disp
 
-/-- what travels / is agreed between the two ends -/
-inductive Wire where
-  | block (bs : Bytes) (disp : Disp)
-  | settings (n : Nat)
+/-- what travels -/
+structure Wire where
+  bs : Bytes
+  disp : Disp
 
 def encodeConn (t : Table) : List ConnItem → List Wire × Table
   | [] => ([], t)
-  | .block cs hs disp :: rest =>
-    let r := encodeBlock t cs hs
+  | it :: rest =>
+    let r := encodeBlock t it.cs it.hs
     let r2 := encodeConn r.2 rest
-    (.block r.1 disp :: r2.1, r2.2)
-  | .settings n :: rest =>
-    let r2 := encodeConn (t.setMaxCapacity n) rest
-    (.settings n :: r2.1, r2.2)
+    (⟨r.1, it.disp⟩ :: r2.1, r2.2)
 
 /-- the receiving end over a connection's life: the header lists handed to
     requests, the final decoder state, and whether the connection is still
-    alive (a decoding error in a served block is answered with GOAWAY) -/
+    alive (a decoding error in ANY decoded block, served or discarded, is
+    answered with GOAWAY) -/
 def recvConn (cap : Nat) : Dec → List Wire → List (List Field) × Dec × Bool
   | d, [] => ([], d, true)
-  | d, .settings n :: ws => recvConn cap (d.setMaxCapacity n) ws
-  | d, .block bs .discard :: ws => recvConn cap (discardBlock cap d bs) ws
-  | d, .block bs .serve :: ws =>
-    let r := decodeBlock cap d bs
+  | d, w :: ws =>
+    let r := decodeBlock cap d w.bs
     match r.err with
     | some _ => ([], r.dec, false)
     | none =>
       let r2 := recvConn cap r.dec ws
-      (r.fields :: r2.1, r2.2.1, r2.2.2)
+      (if w.disp = .serve then r.fields :: r2.1 else r2.1, r2.2.1, r2.2.2)
 
 /-- header lists of the served blocks -/
 def servedLists : List ConnItem → List (List Header)
   | [] => []
-  | .block _ hs .serve :: rest => hs :: servedLists rest
-  | _ :: rest => servedLists rest
+  | it :: rest => if it.disp = .serve then it.hs :: servedLists rest else servedLists rest
 
 /-! ### specification predicates used by the theorems -/
 
